@@ -88,7 +88,9 @@ func (o *UntypedRequestBinder) Bind(request *http.Request, routeParams RoutePara
 			continue
 		}
 
-		if binder.validator != nil {
+		// an optional parameter the request does not carry has nothing to validate: it is bound to its
+		// default or zero value, which need not satisfy the constraints declared for actual values
+		if binder.validator != nil && (param.Required || binder.isSent(request, routeParams)) {
 			value := target.Interface()
 			if target.Kind() == reflect.String {
 				// formats bound to a named string type (uuid, email, uri, ...) are validated as the plain
